@@ -82,6 +82,8 @@ def stepOp (s : St) (ts : List String) : Option (St × String) :=
   | ["ucache"] =>
     let (s', n, e) := updateCache calcId s
     some (s', (match e, n with
+      -- which corrupted id the thread pool reports first is not determined: compare the kind only
+      | some (.corrupted _), _ => "JobsCorruptedError"
       | some e, _ => errStr e
       | none, some n => toString n
       | none, none => "none") ++ ":" ++ stateTok s')
